@@ -442,6 +442,9 @@ Definition plain_do_at (p : policy) (cn : cancel) (bd : body) (sc : list beh) (t
    Client.send, i.e. through the same retrying transport; any answer but 200 is an error of
    Do.  [tb]: the token request's body, [tsc]: the token service's script. *)
 
+Definition no_body : body := mkBody KNone [].
+Definition accepted (r : result) : bool := match r with RResp c _ => c =? accepted_status | _ => false end.
+
 Record tok_out := mkTok {
   k_ok : bool; k_res : result; k_trace : list event; k_time : Z; k_script : list beh
 }.
@@ -461,9 +464,9 @@ Record authk_out := mkAuthK {
 (* auth.Client.Do, empty token cache, with the token request spelled out: first send; on a
    Basic or Bearer challenge: (Bearer) fetch the token -- its failure ends the call --, then
    rewind the body (after the fetch, as in the source), then send again *)
-Definition auth_do_tok (p : policy) (cn : cancel) (bd : body) (sc : list beh)
-           (tb : body) (tsc : list beh) : authk_out :=
-  let o1 := round_trip p cn bd (init_state bd) sc 0 in
+Definition auth_do_tok_at (p : policy) (cn : cancel) (bd : body) (sc : list beh)
+           (tb : body) (tsc : list beh) (t0 : Z) : authk_out :=
+  let o1 := round_trip p cn bd (init_state bd) sc t0 in
   if challenged (o_res o1) then
     let k := if bearer_challenged (o_res o1) then fetch_token p cn tb tsc (o_time o1)
              else mkTok true (o_res o1) [] (o_time o1) tsc in
@@ -477,6 +480,37 @@ Definition auth_do_tok (p : policy) (cn : cancel) (bd : body) (sc : list beh)
     else mkAuthK (k_res k) (o_trace o1) (k_trace k) [] (k_time k)
   else mkAuthK (o_res o1) (o_trace o1) [] [] (o_time o1).
 
+Definition auth_do_tok (p : policy) (cn : cancel) (bd : body) (sc : list beh)
+           (tb : body) (tsc : list beh) : authk_out :=
+  auth_do_tok_at p cn bd sc tb tsc 0.
+
+(* one send through the transport, no challenge handling (a request that already carries
+   Authorization, or a client that is not an auth client) *)
+Definition plain_tok_at (p : policy) (cn : cancel) (bd : body) (sc : list beh) (t0 : Z) : authk_out :=
+  let o := round_trip p cn bd (init_state bd) sc t0 in
+  mkAuthK (o_res o) (o_trace o) [] [] (o_time o).
+
+Definition authk_attempts (a : authk_out) : list (Z * str) :=
+  attempts (ak_first a) ++ attempts (ak_second a).
+
+(* blobStore.Push / Mount fallback with the token requests spelled out (empty token cache): the
+   POST may be challenged and fetch a token; the PUT re-uses the POST's Authorization if it had
+   one, otherwise it is an ordinary request of the auth client and may fetch a token itself; the
+   token service's script goes on where the POST's fetch left it *)
+Record pushk_out := mkPushK { uk_res : result; uk_post : authk_out; uk_put : option authk_out; uk_time : Z }.
+
+Definition blob_push_tok (authc : bool) (p : policy) (cn : cancel) (bd : body) (sc : list beh)
+           (tb : body) (tsc : list beh) : pushk_out :=
+  let post := if authc then auth_do_tok_at p cn no_body sc tb tsc 0 else plain_tok_at p cn no_body sc 0 in
+  if accepted (ak_res post) then
+    let sc' := skipn (length (authk_attempts post)) sc in
+    let tsc' := skipn (length (attempts (ak_token post))) tsc in
+    let authed := match attempts (ak_second post) with [] => false | _ => true end in
+    let put := if authc && negb authed then auth_do_tok_at p cn bd sc' tb tsc' (ak_time post)
+               else plain_tok_at p cn bd sc' (ak_time post) in
+    mkPushK (ak_res put) post (Some put) (ak_time put)
+  else mkPushK (ak_res post) post None (ak_time post).
+
 Definition auth_attempts (a : auth_out) : list (Z * str) :=
   attempts (a_first a) ++ attempts (a_second a) ++ attempts (a_third a).
 
@@ -486,9 +520,7 @@ Definition auth_attempts (a : auth_out) : list (Z * str) :=
    client.  Empty token cache. *)
 Record push_out := mkPush { u_res : result; u_post : auth_out; u_put : option auth_out; u_time : Z }.
 
-Definition no_body : body := mkBody KNone [].
 
-Definition accepted (r : result) : bool := match r with RResp c _ => c =? accepted_status | _ => false end.
 
 (* [warm0]: the token cache already holds a token for the push's own scope key, so the POST
    carries Authorization from its first send (the normal state within a push session) *)
